@@ -18,9 +18,20 @@ def gen(c, binary):
 def run(c):
     c.rule = ("even cases: 24 byte strings each (clean ASCII / clean UTF-8 / messy unicode and ASCII spacing and non-printables / "
               "malformed UTF-8: truncated, overlong, surrogates, >U+10FFFF / 118-142 bytes around the 128 limit / random bytes / "
-              "tiny and all-space / one damaged byte), run through AppendValidStringValue (empty and non-empty dst), "
+              "tiny and all-space / one damaged byte; one input in 14 is length-adversarial: [content] run [content] [run "
+              "[content]] where a run is whitespace (ASCII spaces / mixed ASCII / unicode / all mixed), malformed UTF-8, valid "
+              "multi-byte runes, non-printables or plain text and its length is drawn log-uniformly from 1..8192 bytes - "
+              "thorough: one run in 16 from 1..65536 - because no input length is special to the property), run through "
+              "AppendValidStringValue (empty and non-empty dst), "
               "ForceValidStringValueBytes, ForceValidStringValue, ValidStringValue(Bytes); odd cases: 40 strings each for both raw "
-              "parsers (numbers within +-2 of every boundary, explicit plus, leading zeros, -0, malformed, random). "
+              "parsers (numbers within +-2 of every boundary, explicit plus, leading zeros, -0, malformed, random; one in 40 "
+              "is a spelling of log-uniform length up to 8192 / 65536 bytes: a run of zeros in front of a number or after "
+              "its sign, zeros only, long digit strings, long spellings with one foreign byte). Inputs with whitespace "
+              "runs are also forced with every run replaced by one space, spellings with a zero run are also parsed "
+              "without it: the answers must coincide (oracles force-whitespace-run-length, raw32/raw64-leading-zeros). "
+              "The array-level in-place model re-reads the shared array at every step (quadratic), so the `ip` op is "
+              "replayed on it for inputs up to 1 KB and one in 8 of those up to 4 KB; the direct oracle judges the real "
+              "in-place call at every length. "
               "non-trivial = a case containing an input that takes the slow path or is within 2 bytes of the length limit "
               "(norm), or a number within +-2 of a range boundary (raw); distinct by op-sequence hash")
     c.assumptions += [
@@ -36,7 +47,8 @@ def run(c):
         gen(c, binary)
     c.prove("SH.Props.C11", extra_files=["SH/Model/Norm.lean", "SH/Model/RawTag.lean", "SH/Gen/C11.lean",
                                           "SH/Lemmas/Utf8C11.lean", "SH/Lemmas/NormC11.lean",
-                                          "SH/Lemmas/NormSpecC11.lean", "SH/Lemmas/NormInPlaceC11.lean"])
+                                          "SH/Lemmas/NormSpecC11.lean", "SH/Lemmas/NormInPlaceC11.lean",
+                                          "SH/Lemmas/NormLenC11.lean"])
     drv = c.driver(DRIVER)
     if binary and drv:
         rc, out = c.go_run(binary, [f"-n={c.n(2500, 60000)}"])
@@ -69,14 +81,24 @@ META = {
              "ForceValidStringValueBytes (dst = b[:0] aliasing src = b, every read looking at the shared array as it is) "
              "returns the out-of-place value for every backing array and capacity, and says what the caller's array holds "
              "afterwards; (5) the raw parsers accept exactly the decimal integers of their ranges and the stored pattern reads "
-             "back. The models are tied to the code by replaying generated inputs on the real functions and on the compiled "
-             "model, including the caller's backing array after the in-place call and whether the result aliases it."),
+             "back; (6) no length is special (all theorems are over lists of any length; stated explicitly): "
+             "force_ignores_leading_whitespace_length - whitespace of ANY length in front (the encodings of any number of "
+             "space runes) does not take part in the result, also for the string variant and for strict normalisation "
+             "when it succeeds; force_whitespace_run_length - a non-empty whitespace run of any length after whole runes "
+             "acts exactly like one ASCII space; leading_zeros_irrelevant - any number of zeros in front of the digits, "
+             "at the start or after the sign, gives the same answer from both raw parsers; each with examples for EVERY "
+             "run length k (k spaces + host-42, tab dc1 + k newlines + rack7, k zeros + 42, '-' + k zeros + 1, 2^64-1 / "
+             "2^64 behind k zeros). The models are tied to the code by replaying generated inputs on the real functions and on the compiled "
+             "model, including the caller's backing array after the in-place call and whether the result aliases it; the "
+             "generator draws run lengths log-uniformly up to several KB (64 KB in thorough) for every class of material."),
     "note": ("Trusted: Lean kernel; correspondence on generated inputs; the Lean re-modelling of utf8.DecodeRune/EncodeRune and "
              "strconv.ParseInt/ParseUint; Go's append/memmove semantics as modelled by appendAtZero/poke (checked through the "
              "'ip' op). Not claimed: strict = error <=> malformed UTF-8 (the converse is false for the code: bytes after the "
              "cut are not examined; counterexample kept in the file). The write-directly-to-dst variant (WriteMode.direct, the "
              "shape of seeded/C11-2) is in the model as a decide witness that it differs, plus direct_safe_when_not_growing: it "
              "equals the out-of-place value whenever no written rune is longer than what was read (write index never "
-             "overtakes read index)."),
+             "overtakes read index). force_whitespace_run_length asks that the bytes before the run are whole runes "
+             "(Encoded); for an arbitrary prefix (e.g. ending in a truncated sequence) the statement is only tested "
+             "(oracle force-whitespace-run-length), not proved. The in-place array model is replayed up to 4 KB only."),
     "design_ref": "DESIGN.md §6 C11",
 }
